@@ -68,9 +68,11 @@ Theorem C18_forest_wellformed : forall (av pr : bool) (f : list node),
         xml_fragment out = Some (canon_forest f).
 Proof. exact (forest_wellformed xml_text_tbl xml_attr_tbl C18_table_ok). Qed.
 
-(* C18_html_wellformed: for EVERY value of the modelled core (scalars, floats, numbered lists, tables with the
-   maxListSize cut-off, plainList, maps, Format with string / css-map / failing-closure styles inline or as
-   classes, Cell, ColSpan, Link, http/https/host strings) with legal XML characters: either ToHtml answers
+(* C18_html_wellformed: for EVERY value of the modelled type hval (scalars, floats, numbered lists, tables with
+   the maxListSize cut-off, plainList, maps, Format with string / css-map styles inline or as classes, Cell,
+   ColSpan, Link, http/https/host strings, File values, table formats rNcM / rN / cN / all with constant
+   styles, identity and failing closures, Format with a failing closure style or with a succeeding closure
+   style whose result is any value of the type) with legal XML characters: either ToHtml answers
    an error, or the calls it issues are balanced (exactly those of a forest f), every element and attribute
    name of f is one of ToHtml's constants, attribute names are unique, and the writer runs to the end *)
 Theorem C18_html_wellformed : forall (maxl : N) (inline : bool) (v : hval), legal_h v = true ->
@@ -116,8 +118,11 @@ Proof.
   exists (HFmt false 0 (SStr s_plainList) (HL [HS [97]; HLnk [108] (HS [98])])). vm_compute. split; reflexivity.
 Qed.
 
-(* tohtml_errors_not_panics: a failing closure style that toHtml reaches inside the maxListSize cut-offs
-   (relation fails, coq/Exp/Html.v) makes ToHtml answer an error - never a document cut off at that element *)
+(* tohtml_errors_not_panics: a failing (or panicking: recovered) closure style that toHtml reaches inside the
+   maxListSize cut-offs (relation fails, coq/Exp/Html.v: through Format, Link, map values, list elements, table
+   cells with or without a table format, results of succeeding closures) makes ToHtml answer an error - never a
+   document cut off at that element.  Together with C18_html_wellformed: the only outcomes are an error without
+   markup or complete balanced markup; the writer never panics *)
 Theorem C18_tohtml_errors : forall (maxl : N) (inline : bool) (v : hval),
   fails (eff_max maxl) v SNone -> to_html_doc xml_text_tbl xml_attr_tbl maxl inline v = HError.
 Proof. exact (html_errors xml_text_tbl xml_attr_tbl). Qed.
@@ -146,6 +151,20 @@ Example C18_nonvacuous :
   | None => None
   end = Some (proj v).
 Proof. vm_compute. split; reflexivity. Qed.
+
+(* non-vacuity for the extended model: a table format (cell r1c1 styled with markup characters, row 2 styled,
+   everything else an identity closure), a File, a succeeding closure style whose result is a list with markup
+   characters; the markup parses back and all names are ToHtml's constants *)
+Example C18_html_nonvacuous :
+  let tf := STab [([99], [60])] [([114; 49; 99; 49], SStr [34; 62; 60]); ([114; 50], SStr [120]); ([97; 108; 108], SCloId)] in
+  let v := HFmt false 0 tf (HL [HL [HS [60; 97]; HFile [110; 34] [] [81; 81; 61; 61] [49; 32; 66]];
+                                HL [HFmtClo false 0 (HL [HS [38]; HS [39]]) (HS [120]); HS [98]]]) in
+  legal_h v = true /\ pfree v = true /\
+  match to_html_doc xml_text_tbl xml_attr_tbl 3 true v with
+  | HOk out _ => match xml_fragment out with Some f => forallb hnames f | None => false end
+  | _ => false
+  end = true.
+Proof. vm_compute. repeat split; reflexivity. Qed.
 
 Print Assumptions C18_table_ok.
 Print Assumptions C18_attr_value.
